@@ -370,6 +370,16 @@ def mapping_contracts(rec, rnd, tier):
         call("Mapping.invert", [build(maps, mir)], dict(d, call="invert"))
         for f in range(len(maps) + 1):
             call("Mapping.slice", [m, f, None], dict(d, call=f"slice({f})"))
+            # every window [f, t): the sliced mapping must compose exactly its own maps (a mirror whose
+            # partner lies outside the window is not followed)
+            for t in range(f, len(maps) + 1):
+                ok_, sl = call("Mapping.slice", [m, f, t], dict(d, call=f"slice({f},{t})"))
+                if not ok_ or sl is None:
+                    continue
+                for pos in range(0, 8):
+                    for assoc in (-1, 1):
+                        call("Mapping.map", [sl, pos, assoc], dict(d, call=f"slice({f},{t}).map({pos},{assoc})"))
+                        call("Mapping.map_result", [sl, pos, assoc], dict(d, call=f"slice({f},{t}).map_result({pos},{assoc})"))
         for pos in range(0, 8):
             for assoc in (-1, 1):
                 call("Mapping.map", [m, pos, assoc], dict(d, call=f"map({pos},{assoc})"))
